@@ -382,7 +382,7 @@ pub fn array_elems<const K: usize>(count: usize) {
 }
 
 /// The same with the shortest possible elements, `_ CRLF` (3 bytes): count <= K must decode to `count` nulls.
-pub fn array_nulls<const K: usize>(count: usize) {
+pub fn array_nulls<const K: usize>(count: usize, with_trailing: bool) {
     let mut v: Vec<u8> = Vec::with_capacity(3 * K + 8);
     v.push(b'*');
     v.push(b'0' + count as u8);
@@ -395,9 +395,10 @@ pub fn array_nulls<const K: usize>(count: usize) {
         v.push(b'\n');
         i += 1;
     }
-    let trailing: u8 = kani::any(); // one byte of a following frame may or may not have arrived
-    let with_trailing: bool = kani::any();
+    // one (symbolic) byte of a following frame may have arrived; whether it has is part of the shape
+    // (a symbolic buffer length is the copy pattern CBMC does not carry)
     if with_trailing {
+        let trailing: u8 = kani::any();
         v.push(trailing);
     }
     let n = v.len();
